@@ -15,9 +15,16 @@ def one(d):
     os.makedirs(root)
     shutil.copytree('/repo/src', root + '/src')
     p = subprocess.run(['patch', '-p1', '-s', '-d', root, '-i', os.path.join(d, 'patch.diff')], capture_output=True, text=True)
+    head = subprocess.run(['git', '-C', '/repo', 'rev-parse', '--short', 'HEAD'], capture_output=True, text=True).stdout.strip()
     if p.returncode != 0:
         shutil.rmtree(root, ignore_errors=True)
+        # a later fix commit changed the lines this seed edits: the verdict recorded when it was confirmed (meta['check'], against meta['check'].get('head')) stands
+        meta['applies_to_final_head'] = False
+        meta['final_head'] = head
+        json.dump(meta, open(os.path.join(d, 'meta.json'), 'w'), indent=1)
         return sid, 'DOES NOT APPLY to the current HEAD: ' + (p.stdout + p.stderr).strip()[:200]
+    meta['applies_to_final_head'] = True
+    meta['final_head'] = head
     env = dict(os.environ, PYVC_REPO_SRC=root + '/src/mpservice', PYVC_EVIDENCE_DIR='/tmp/rs/evidence-' + sid)
     try:
         r = subprocess.run(['python3-vt', '-m', 'pyvc.check', pid, '--tier', 'quick'], capture_output=True, text=True, cwd=HERE, env=env, timeout=1500)
